@@ -28,6 +28,27 @@ class CloneUniverse(Universe):
         self._gid[id(g)] = len(self.graphs)
         return len(self.graphs)
 
+    def _annotate(self, src) -> None:
+        """Give the nodes of the graph about to be cloned device annotations (they are not part of the abstract state):
+        two configurations per node, the first with a sharding spec bound to one of the node's values, the last one
+        placement-only."""
+        if not hasattr(self, "_cfgs"):
+            holder = ir.Model(ir.Graph([], [], nodes=[], name="cfg_holder"), ir_version=11)
+            self._cfgs = (holder, holder.add_device_configuration("ca", num_devices=2),
+                          holder.add_device_configuration("cb", num_devices=2))
+        _, ca, cb = self._cfgs
+        for node in self._all_nodes(src):
+            if node.device_configurations:
+                continue
+            vals = [v for v in list(node.inputs) + list(node.outputs) if v is not None]
+            if not vals:
+                continue
+            try:
+                node.shard(vals[0], configuration=ca, axis=0, num_shards=2, device_indices=(0, 1))
+                node.set_pipeline_stage(cb, 1)
+            except Exception:  # noqa: BLE001 - e.g. a scalar value: no annotation on this node
+                pass
+
     @staticmethod
     def _subgraphs(node):
         out = []
@@ -105,6 +126,7 @@ class CloneUniverse(Universe):
             src = self.G(c["g"])
             self.shared_on_clone, self.clone_refs_source = [], []
             variant = c.get("_variant", 0)
+            self._annotate(src)
             if variant == 1 and not c["flag"]:
                 new = ir.GraphView(list(src.inputs), list(src.outputs), nodes=list(src), initializers=list(src.initializers.values()),
                                    name=src.name, doc_string=src.doc_string, opset_imports=src.opset_imports,
@@ -132,6 +154,15 @@ class CloneUniverse(Universe):
             for v in new.outputs:
                 if id(v) in src_def:
                     self.clone_refs_source.append(self.vid(v))
+            # device annotations are references too: a sharding spec of a cloned node must target a value of the clone
+            # (a captured outer-scope value stays the same object when capturing is allowed - as for node inputs,
+            # only values DEFINED by the cloned graphs count)
+            for sgn in self._all_nodes(new):
+                io = {id(v) for v in list(sgn.inputs) + list(sgn.outputs) if v is not None}
+                for dc in sgn.device_configurations:
+                    for sp in dc.sharding_specs:
+                        if sp.value is not None and id(sp.value) in src_def and id(sp.value) not in io:
+                            self.clone_refs_source.append(self.vid(sp.value))
             under = self._graphs_under(src)
             outs_under = {id(v) for g2 in under for v in g2.outputs}
             foreign_output = any(id(v) in src_def and v.is_graph_output() and id(v) not in outs_under for v in self.values)
